@@ -1,6 +1,6 @@
 (* RunC10.v — executable wrappers (model answers as lists of integers) for the C10 cases. *)
 From Coq Require Import ZArith List Bool.
-From V.Model Require Export Bits Shape.
+From V.Model Require Export Bits Shape Cast.
 From V.Harness Require Import Run.
 Import ListNotations.
 Open Scope Z_scope.
@@ -28,9 +28,26 @@ Definition k_const_cast (e : cexpr) : list Z :=
   if cwf e then let '(v, s) := const_cast e in 1 :: v :: sh2l s else [0].
 (* Signal(Shape(w, sg), init=v).init *)
 Definition k_init (v w : Z) (sg : bool) : list Z := [norm (Sh w sg) v].
-(* Signal(range(a, b, st), init=v): rejected unless v is an element; accepted value wrapped *)
-Definition range_mem (a b st v : Z) : bool :=
-  if 0 <? st then (a <=? v) && (v <? b) && ((v - a) mod st =? 0)
-  else (b <? v) && (v <=? a) && ((a - v) mod (- st) =? 0).
+(* Signal(range(a, b, st), init=v): rejected unless v is an element (Cast.range_mem); accepted value wrapped *)
 Definition k_init_range (a b st v : Z) : list Z :=
   if range_mem a b st v then [1; norm (cast_range a b st) v] else [0].
+
+(* ---- added after the coverage audit ---- *)
+Definition rz2l (r : res Z) : list Z := match r with Ok v => [1; v] | Err c => [0; c] end.
+(* Signal(shape-like, init=anything constant-castable).init, or the class of the exception *)
+Definition k_init_x (sp : shspec) (i : initv) : list Z := rz2l (get_init_value sp i).
+(* list(MemoryData(shape=, depth=, init=[...]).init) *)
+Definition k_mem_init (sp : shspec) (depth : Z) (elems : list initv) : list Z :=
+  match mem_init sp depth elems with Ok l => 1 :: l | Err c => [0; c] end.
+(* Const(v, range(a, b, st)) -> shape and value *)
+Definition k_const_range (v a b st : Z) : list Z :=
+  let s := cast_range a b st in sh2l s ++ [const_norm s v].
+(* Const(member): shape of the member's class;  Const(member, shape): the given shape (None / invalid = TypeError) *)
+Definition k_const_member_default (cls : shape) (v : Z) : list Z := 1 :: sh2l cls ++ [const_norm cls v].
+Definition k_const_member_shape (o : option shape) (v : Z) : list Z :=
+  match o with
+  | Some s => if wf_shape s then 1 :: sh2l s ++ [const_norm s v] else [0; 1]
+  | None => [0; 1]
+  end.
+(* Shape.cast(enumeration class) *)
+Definition k_shape (s : shape) : list Z := 1 :: sh2l s.
